@@ -581,6 +581,9 @@ def sym_str_method(I, o, name, a, k):
         pc = M.str_chars(a[0])
         if len(pc) == 1:
             return sum_bools(I, [py_eq(I, c, pc[0]) for c in chars])
+    if name in ('strip', 'lstrip', 'rstrip') and len(a) == 1 and isinstance(a[0], str) and not k:
+        from .models_uri import strip_chars     # added for C20: strip(chars) with a concrete character set
+        return strip_chars(I, chars, name, a[0])
     raise OutOfSubset('str.%s on symbolic string' % name)
 
 
@@ -974,6 +977,81 @@ def _reduce(I, a, k):
 EXTERNALS['functools.reduce'] = _fn('functools.reduce', _reduce)
 
 
+# ---- text files holding one YAML document (C14).  Assumed contract of PyYAML, stated in the evidence:
+# yaml.safe_load(yaml.dump(d)) == d for plain data (None/bool/int/float/str, lists, dicts with concrete int or
+# str keys; mapping keys come back sorted).  Anything else (tuples, objects, numpy scalars) is out of subset.
+
+def _yaml_plain(I, v):
+    if v is None or isinstance(v, (bool, int, float, str, SInt, SBool, SFloat, SReal, PStr)):
+        return v
+    if isinstance(v, PList):
+        return PList([_yaml_plain(I, x) for x in v.items])
+    if isinstance(v, PDict):
+        ks = list(v.keys)
+        if not (all(isinstance(x, str) for x in ks) or all(isinstance(x, int) and not isinstance(x, bool) for x in ks)):
+            raise OutOfSubset('yaml document with symbolic or mixed-type mapping keys')
+        order = sorted(range(len(ks)), key=lambda i: ks[i])
+        return PDict([(ks[i], _yaml_plain(I, v.vals[i])) for i in order])
+    raise OutOfSubset('yaml round trip is only assumed for plain data, not %s' % M.type_name(I, v))
+
+
+def _open(I, a, k):
+    name = a[0]
+    mode = a[1] if len(a) > 1 else k.get('mode', 'r')
+    if not isinstance(name, str) or mode not in ('r', 'w'):
+        raise OutOfSubset('open(%r, %r)' % (name, mode))
+    fs = I.__dict__.setdefault('_fs', {})
+    if mode == 'r' and name not in fs:
+        I.raise_py('FileNotFoundError', 2, 'No such file or directory')
+    if mode == 'w':
+        fs[name] = None         # truncated
+    f = Ext('file:' + name, auto=False)
+    f.file_name, f.file_mode, f.closed = name, mode, False
+
+    def _exit(I_, a_, k_):
+        f.closed = True
+        return False
+    f.attrs['__enter__'] = Builtin('file.__enter__', lambda I_, a_, k_: f)
+    f.attrs['__exit__'] = Builtin('file.__exit__', _exit)
+    f.attrs['close'] = Builtin('file.close', _exit)
+    I.note_assumption('files: open/yaml.dump/yaml.safe_load modelled as a store of YAML documents; '
+                      'yaml.safe_load(yaml.dump(d)) == d assumed for plain data')
+    return f
+
+
+M.BUILTINS.setdefault('open', Builtin('open', _open))
+
+
+def _yaml_file(I, f, mode):
+    if not (isinstance(f, Ext) and getattr(f, 'file_mode', None) == mode) or f.closed:
+        raise OutOfSubset('yaml on something that is not an open file in mode %s: %r' % (mode, f))
+    return I.__dict__.setdefault('_fs', {})
+
+
+def _yaml_dump(I, a, k):
+    if len(a) != 2 or k:
+        raise OutOfSubset('yaml.dump with these arguments')
+    fs = _yaml_file(I, a[1], 'w')
+    fs[a[1].file_name] = _yaml_plain(I, a[0])
+    return None
+
+
+def _yaml_safe_load(I, a, k):
+    fs = _yaml_file(I, a[0], 'r')
+    return _yaml_plain(I, fs[a[0].file_name])
+
+
+def _yaml_error(I):
+    if 'yaml.YAMLError' not in M._EXC:
+        M._EXC['yaml.YAMLError'] = ExcClass('yaml.YAMLError', [M.exc_class(I, 'Exception')])
+    return M._EXC['yaml.YAMLError']
+
+
+EXTERNALS['yaml.dump'] = _fn('yaml.dump', _yaml_dump)
+EXTERNALS['yaml.safe_load'] = _fn('yaml.safe_load', _yaml_safe_load)
+EXTERNALS['yaml.YAMLError'] = _yaml_error
+
+
 def crc32_fn():
     return z3.Function('crc32', ops.IntSeq, z3.IntSort())
 
@@ -1316,3 +1394,8 @@ def setitem(I, o, k, v):
         o.t = z3.Concat(z3.SubSeq(o.t, 0, t), z3.Unit(zterm(v)), z3.SubSeq(o.t, t + 1, n - t - 1))
         return
     raise OutOfSubset('item assignment on %r' % (o,))
+
+
+# ------------------------------------------------------------------ urllib.parse / re / unhexlify models (added for C20)
+from . import models_uri as _uri   # noqa: E402
+_uri.install(EXTERNALS, _fn)
